@@ -164,6 +164,9 @@ def read_data(fh, mcnp_version, block_type=None, recursion=False):
         if not line.strip():
             yield from flush_block()
             has_non_comments = False
+            # MCNP ignores everything after the blank line that ends the data block
+            if block_counter >= 3 and not recursion:
+                break
             continue
         # if a new input
         if (
